@@ -319,6 +319,31 @@ def run(ctx, R, tier):
     R.check(not missing, "C17-R4", "ERRNO_RETRIES|transient-errnos-present", "EINTR, EAGAIN, EWOULDBLOCK and EINPROGRESS are all in the table", m.relpath,
             "%s no longer in ERRNO_RETRIES: a transient would-block / interrupted condition raises ConnectionClosedError instead of being retried, and the bytes read so far are lost" % missing)
 
+    # the back-off generator is asked for a delay on EVERY retry, with a bare next(): it must never end, or the n-th retryable condition in a row surfaces as
+    # StopIteration (RuntimeError inside a generator) instead of a further retry - neither data nor a connection-closed / timeout error
+    rd = ctx.fn("Pyro5.socketutil.__retrydelays")
+    body = [st for st in rd.node.body if not (isinstance(st, ast.Expr) and isinstance(st.value, ast.Constant))]
+    last = body[-1] if body else None
+    endless = False
+    if isinstance(last, ast.While) and isinstance(last.test, ast.Constant) and last.test.value and not last.orelse:
+        inner_loops = [n for n in ast.walk(last) if isinstance(n, (ast.For, ast.While)) and n is not last]
+        brk = [n for n in ast.walk(last) if isinstance(n, ast.Break) and not any(n in list(ast.walk(il)) for il in inner_loops)]
+        endless = not brk and any(isinstance(n, (ast.Yield, ast.YieldFrom)) for n in ast.walk(last))
+    elif isinstance(last, ast.Expr) and isinstance(last.value, ast.YieldFrom) and isinstance(last.value.value, ast.Call) and \
+            (dotted(last.value.value.func) or "") in ("itertools.count", "itertools.cycle", "itertools.repeat") and \
+            not (dotted(last.value.value.func) == "itertools.repeat" and (len(last.value.value.args) > 1 or last.value.value.keywords)):
+        endless = True
+    rets = [n for n in walk_no_nested(rd.node) if isinstance(n, ast.Return)]
+    raises = [n for n in walk_no_nested(rd.node) if isinstance(n, ast.Raise)]
+    nexts = [c for g in p.functions.values() if g.module.name == "Pyro5.socketutil" for c in walk_no_nested(g.node)
+             if isinstance(c, ast.Call) and isinstance(c.func, ast.Name) and c.func.id == "next" and len(c.args) == 1]
+    if not nexts:
+        raise AnalysisError("socketutil: no next(<delays>) call found - the back-off is consumed in a way this rule does not know")
+    R.check(endless and not rets and not raises, "C17-R4", "__retrydelays|never-ends", "the back-off generator ends in an endless loop of yields (consumed by %d bare next() calls)" % len(nexts),
+            rd.loc(last) if last is not None else rd.loc(),
+            "the back-off generator can run out: after that many retryable errors in a row next() raises StopIteration out of receive_data / send_data - the caller gets "
+            "neither its bytes nor a ConnectionClosedError / TimeoutError")
+
     # only the connection-closed error carries partialData: a handler that reads it must not catch anything wider
     n_pd = 0
     for g in p.functions.values():
